@@ -20,7 +20,7 @@ LEVEL = 'exploration'
 TIERS = {"quick": 30000, "thorough": 1200000}
 BUDGET = {'quick': 150, 'thorough': 1500}
 RULE = ('seeded plans: universe descriptor + one abstract value + 2-5 replicas, each with a construction route '
-        '(canonical | permuted order | explicit/implicit DEFAULTs | native Python arguments | decode of a BER form the encoder produces, incl. REAL bases 8/16 | decode of an equivalent BER variant: long-form lengths, indefinite lengths, constructed strings, other TRUE octets | clone of another '
+        '(canonical | permuted order | explicit/implicit DEFAULTs | native Python arguments | every scalar slot assigned a decoy first and then the target | decode of a BER form the encoder produces, incl. REAL bases 8/16 | decode of an equivalent BER variant: long-form lengths, indefinite lengths, constructed strings, other TRUE octets | clone of another '
         'route) and 0-6 interleaved read-only operations; non-trivial: at least two replicas reached the value by different routes and '
         'both encoders accepted it; distinct = distinct plan digests among those')
 ASSUMPTIONS = [
@@ -33,7 +33,7 @@ STUB = ['replica histories (construction routes and read-only operations)']
 
 ROUTES = ['canonical', 'permuted', 'permuted', 'defaults-explicit', 'defaults-implicit', 'native-args',
           'decoded:ber', 'decoded:ber-indef', 'decoded:ber-chunk:2', 'decoded:ber-indef-chunk:3', 'decoded:der', 'decoded:cer',
-          'decoded:variant', 'decoded:variant', 'decoded:realbase', 'clone', 'inplace', 'inplace']
+          'decoded:variant', 'decoded:variant', 'decoded:realbase', 'clone', 'inplace', 'inplace', 'overwrite']
 # read-only uses that may be interleaved *during* a construction (none of them is documented to instantiate)
 MID_READS = ['der', 'cer', 'ber', 'prettyPrint', 'str', 'iter', 'eq', 'len', 'in', 'isValue']
 READS = ['der', 'cer', 'ber', 'prettyPrint', 'str', 'iter', 'eq', 'len', 'in', 'isValue', 'values', 'getitem', 'getitem', 'items', 'deep_read']
@@ -91,7 +91,7 @@ def _gen_catalogue(r):
     desc, values = r.choice(CATALOGUE)
     reps = []
     routes = ['canonical', 'permuted', 'permuted', 'defaults-explicit', 'defaults-implicit', 'native-args',
-              'decoded:ber', 'decoded:ber-indef', 'decoded:der', 'clone', 'inplace', 'inplace']
+              'decoded:ber', 'decoded:ber-indef', 'decoded:der', 'clone', 'inplace', 'inplace', 'overwrite']
     for i in range(r.randrange(2, 6)):
         rep = {'route': r.choice(routes), 'perm': r.randrange(1 << 30),
                'reads': [[r.choice(READS), r.randrange(4)] for _ in range(r.choice([0, 0, 1, 3]))]}
@@ -159,8 +159,82 @@ def _shuffled(seq, rnd):
     return seq
 
 
+def _decoy(desc, x, rnd):
+    """Another value of the same type to be overwritten by x: preferably one that a careless comparison
+    takes for x (the same number in the other REAL base), else any other value."""
+    k = desc['k']
+    if k == 'REAL' and rnd.random() < 0.7:
+        try:
+            if isinstance(x, float) and x == x and abs(x) != float('inf'):
+                num, den = x.as_integer_ratio()
+                if den & (den - 1) == 0 and abs(num) < 2 ** 60:
+                    return [num, 2, -(den.bit_length() - 1)]
+            if isinstance(x, list) and x[1] == 2 and abs(x[2]) < 200:
+                return float(x[0]) * 2.0 ** x[2]
+        except (OverflowError, ValueError):
+            pass
+    for _ in range(4):
+        y = U.gen_value(rnd, desc, U.ValCfg(small=True))
+        if y != x:
+            return y
+    return None
+
+
+def _assign_twice(setter, sub, d, x, rnd):
+    """decoy first, then the target; the target as a bare Python value when the type allows."""
+    y = _decoy(d, x, rnd)
+    if y is not None:
+        try:
+            setter(U.build_value(sub, d, y))
+        except Exception:
+            pass
+    if d['k'] in U.PRIMS and rnd.random() < 0.6:
+        setter(U.prim_arg(d, x))
+    else:
+        setter(U.build_value(sub, d, x))
+
+
+def build_overwrite(schema, desc, v, rnd):
+    k = desc['k']
+    if k in ('SEQ', 'SET'):
+        obj = schema.clone()
+        nts = schema.componentType
+        present = [(f, v[f['n']]) for f in desc['fields'] if f['n'] in v]
+        for f, x in present:
+            sub = nts[f['n']].asn1Object
+            if f['d']['k'] in U.PRIMS and not f.get('open'):
+                _assign_twice(lambda val, n_=f['n']: obj.setComponentByName(n_, val), sub, f['d'], x, rnd)
+            else:
+                obj.setComponentByName(f['n'], build_overwrite(sub, f['d'], x, rnd))
+        if not present and not desc['fields']:
+            obj.clear()
+        return obj
+    if k in ('SEQOF', 'SETOF'):
+        obj = schema.clone()
+        obj.clear()
+        for i, x in enumerate(v):
+            if desc['of']['k'] in U.PRIMS:
+                _assign_twice(lambda val, i_=i: obj.setComponentByPosition(i_, val), schema.componentType, desc['of'], x, rnd)
+            else:
+                obj.setComponentByPosition(i, build_overwrite(schema.componentType, desc['of'], x, rnd))
+        return obj
+    if k == 'CHOICE':
+        obj = schema.clone()
+        name, x = v
+        sub = schema.componentType[name].asn1Object
+        a = dict((n, d) for n, d in desc['alts'])[name]
+        if a['k'] in U.PRIMS:
+            _assign_twice(lambda val: obj.setComponentByName(name, val), sub, a, x, rnd)
+        else:
+            obj.setComponentByName(name, build_overwrite(sub, a, x, rnd))
+        return obj
+    return U.build_value(schema, desc, v)
+
+
 def build_route(schema, desc, v, route, rnd):
     """Build the value of `desc` along `route`.  rnd is a Random seeded from the plan."""
+    if route == 'overwrite':
+        return build_overwrite(schema, desc, v, rnd)
     k = desc['k']
     if k in U.PRIMS or k == 'ANY':
         if route == 'native-args' and k in U.PRIMS:
